@@ -3,6 +3,7 @@ package main
 import (
 	"fmt"
 	"go/ast"
+	"go/token"
 	"go/types"
 	"sort"
 	"strings"
@@ -82,6 +83,39 @@ func ruleStage1Pos(c *Ctx) {
 			}
 		}
 	}
+	// the range test must compare the unsigned values: a conversion to a signed type turns the wrapped position into a
+	// negative number that passes `< len`
+	okUnsigned := true
+	nCmp := 0
+	ast.Inspect(fd.Body, func(n ast.Node) bool {
+		be, ok := n.(*ast.BinaryExpr)
+		if !ok {
+			return true
+		}
+		switch be.Op {
+		case token.LSS, token.LEQ, token.GTR, token.GEQ:
+		default:
+			return true
+		}
+		mentions := false
+		ast.Inspect(be, func(m ast.Node) bool {
+			if id, ok := m.(*ast.Ident); ok && id.Name == "position" {
+				mentions = true
+			}
+			return true
+		})
+		if !mentions || !strings.Contains(p.Str(be), "len(") {
+			return true
+		}
+		nCmp++
+		for _, side := range []ast.Expr{be.X, be.Y} {
+			if b, ok := p.Info.TypeOf(side).Underlying().(*types.Basic); !ok || b.Info()&types.IsUnsigned == 0 {
+				okUnsigned = false
+			}
+		}
+		return true
+	})
+	c.Check(okUnsigned && nCmp >= 1, "findStructuralIndices:position-test-unsigned", p.Pos(fd), "the range test of the running position compares unsigned values", "the range test of `position` is done on signed values: a wrapped (\"negative\") position passes it and the driver indexes the input with it", "a truncated document whose last index buffer holds only the carried index")
 	n, fnd := checkBoundsOnPaths(c, p, "findStructuralIndices", sps, accs, rel, extra)
 	var keys []string
 	for k := range fnd {
